@@ -9,6 +9,7 @@ import Pdlv.Static
 import Pdlv.Py
 import Pdlv.Cxx
 import Pdlv.PySpec
+import Pdlv.Java
 import Pdlv.Analyzer
 import Pdlv.ToJson
 import Pdlv.Syntax
@@ -352,6 +353,14 @@ def handle (st : State) (req : Json) : Except String (State × Json) := do
           match hexToBytes (← J.str c "hex").toList with
           | none => throw "bad hex"
           | some bs => pure (decOut ((Cxx.viewDecode cfg b bs).bind fun v => .ok (v, [])))
+        | "javaenc" =>
+          -- the model of `toBytes()` the Java back end emits (bit-field groups only)
+          let v ← valueOfJson (← c.getObjVal? "v")
+          pure (encOut (Java.encBody cfg b v))
+        | "javadec" =>
+          match hexToBytes (← J.str c "hex").toList with
+          | none => throw "bad hex"
+          | some bs => pure (decOut ((Java.decodeFull cfg b bs).bind fun v => .ok (v, [])))
         | "cxxenc" =>
           -- the model of the serializer the C++ back end emits
           let v ← valueOfJson (← c.getObjVal? "v")
@@ -383,7 +392,7 @@ def handle (st : State) (req : Json) : Except String (State × Json) := do
           pure (Json.mkObj [("r", "ok"), ("len", Json.num (lenBody b v)), ("enclen", Json.num (encLen b v)),
             ("lenwf", Json.bool (lenWfBody b)), ("decwf", Json.bool (decWfBody b)),
             ("refwf", Json.bool (refWfBody b)), ("nomod", Json.bool (noModBody b)),
-            ("rtwf", Json.bool (rtWfFull b)), ("exactwf", Json.bool (exactWfBody b)), ("typed", Json.bool (typedBody b v)), ("pywf", Json.bool (Py.wfBody b)), ("cxxwf", Json.bool (Cxx.wfBody b)), ("cxxvwf", Json.bool (Cxx.vwfBody b)), ("cxxserwf", Json.bool (Cxx.serWfBody b)), ("convwf", Json.bool (convWfBody b)), ("pyserwf", Json.bool (Py.serWfBody b)), ("derived", Json.bool (match b with | .derived .. => true | _ => false))])
+            ("rtwf", Json.bool (rtWfFull b)), ("exactwf", Json.bool (exactWfBody b)), ("typed", Json.bool (typedBody b v)), ("pywf", Json.bool (Py.wfBody b)), ("cxxwf", Json.bool (Cxx.wfBody b)), ("cxxvwf", Json.bool (Cxx.vwfBody b)), ("cxxserwf", Json.bool (Cxx.serWfBody b)), ("convwf", Json.bool (convWfBody b)), ("pyserwf", Json.bool (Py.serWfBody b)), ("pychildwf", Json.bool (Py.serWfChild b)), ("javawf", Json.bool (Java.wfBody b)), ("javadecwf", Json.bool (match b with | .root _ items => Java.decWfItems items | _ => false)), ("derived", Json.bool (match b with | .derived .. => true | _ => false))])
         | "canon" =>
           -- the right-hand side of theorem `roundtrip`: the normal form of the value
           let v ← valueOfJson (← c.getObjVal? "v")
